@@ -8,8 +8,9 @@ from .nlpprop import TRUSTED as _T, ASSUMPTIONS as _A
 
 TRUSTED = _T + ["numeric read-back is exercised through rockit's OcpSolution wrapped around a stand-in for the CasADi solution object that evaluates expressions at the chosen decision vector"]
 ASSUMPTIONS = _A
-GRIDS = ["control", "control-", "integrator", "integrator_roots"]
-GCODE = {"control": 0, "control-": 1, "integrator": 2, "integrator_roots": 3}
+GRIDS = ["control", "control-", "integrator", "integrator-", "integrator_roots"]
+# 'integrator-' is the integrator grid without its last point: the model's integrator sample minus its last entry
+GCODE = {"control": 0, "control-": 1, "integrator": 2, "integrator-": 2, "integrator_roots": 3}
 
 OPTS = {"methods": ["MS", "SS", "DC"], "intgs": ["rk", "expl_euler"], "N_max": 4, "M_max": 3, "deg_max": 3,
         "constraints": False, "objective": False, "p_quad": 0.5, "p_freeT": 0.3, "p_freet0": 0.2,
@@ -20,7 +21,7 @@ def gen_specs(rng, case):
     specs = []
     kind = case["method"]["kind"]
     for _ in range(rng.randint(2, 4)):
-        grid = rng.choice(GRIDS if kind == "DC" else GRIDS[:3])
+        grid = rng.choice(GRIDS if kind == "DC" else GRIDS[:4])
         kinds = ["x", "u", "p", "pc", "pp", "v", "vc", "vp", "t", "T", "t0"]
         if case.get("algebraics"):
             kinds.append("z")
@@ -172,6 +173,8 @@ def judge_case(case, pts, r, mv):
             return []
         for si, (sp, rs, ms) in enumerate(zip(case["samples"], rp["samples"], msamples)):
             mt, mrows = ms
+            if sp["grid"] == "integrator-":
+                mt, mrows = mt[:-1], mrows[:-1]
             R, Cc = sp["rows"], sp["cols"]
             if len(rs["t"]) != len(mt) or not all(engine.close(a, b) for a, b in zip(rs["t"], mt)):
                 return [{"what": "time vector of the sample differs", "grid": sp["grid"], "rockit": rs["t"], "model": mt, "point": p}]
@@ -272,12 +275,55 @@ def dm2numpy_check(seed, n):
     return dis, len(shapes)
 
 
+def dae_shooting_worker(cfg):
+    """shooting with a CasADi integrator and a DAE  0 = z - x (1+t):  the algebraic variable sampled at a grid point is
+    determined by the state and time sampled at that point"""
+    from ..common import setup_rockit_path
+    rockit = setup_rockit_path()
+    import io, contextlib
+    import casadi as ca
+    out = {}
+    try:
+        with contextlib.redirect_stdout(io.StringIO()), contextlib.redirect_stderr(io.StringIO()):
+            ocp = rockit.Ocp(T=1.5)
+            x = ocp.state(); z = ocp.algebraic(); u = ocp.control()
+            ocp.set_der(x, -z + u)
+            ocp.add_alg(z - x * (1 + ocp.t))
+            ocp.subject_to(ocp.at_t0(x) == 1)
+            ocp.add_objective(ocp.integral(u ** 2))
+            M_ = rockit.MultipleShooting if cfg["method"] == "MS" else rockit.SingleShooting
+            ocp.method(M_(N=cfg["N"], M=cfg["M"], intg=cfg["intg"]))
+            ocp.solver("ipopt", {"ipopt.print_level": 0, "print_time": False})
+            _, res = ocp.sample(z - x * (1 + ocp.t), grid=cfg["grid"])
+            opti = ocp._method.opti
+            xv = 1.0 + 0.125 * np.arange(opti.x.numel())
+            val = np.array(ca.Function("f", [opti.x, opti.p], [res])(xv, opti.debug.value(opti.p, opti.initial()))).reshape(-1)
+            out["residual"] = [float(a) for a in val]
+    except Exception as e_:
+        out["error"] = "%s: %s" % (type(e_).__name__, str(e_)[:200])
+    return out
+
+
 def run(tier="quick", seed=0, jobs=16):
     n = 100 if tier == "quick" else 1200
     cps = corpus() + gen_cases(seed, n, OPTS if tier == "quick" else dict(OPTS, N_max=6), 2 if tier == "quick" else 4)
     dis, nontriv, dist = run_cases(cps, "C07", jobs)
     d2, n2 = dm2numpy_check(seed, 30 if tier == "quick" else 200)
     dis += d2
+    dcfg = [{"method": m, "intg": i, "N": 2 + (k % 2), "M": 1 + (k % 3), "grid": g}
+            for k, (m, i, g) in enumerate([(m, i, g) for m in ("MS", "SS") for i in ("collocation", "idas") for g in ("integrator", "control")])]
+    with mp.get_context("fork").Pool(min(jobs, len(dcfg))) as pool:
+        rd = pool.map(dae_shooting_worker, dcfg, chunksize=1)
+    for cfg, r in zip(dcfg, rd):
+        dist["dae-shooting/%s/%s" % (cfg["intg"], cfg["grid"])] = dist.get("dae-shooting/%s/%s" % (cfg["intg"], cfg["grid"]), 0) + 1
+        if "error" in r:
+            dis.append({"property": "C07", "case": dict(cfg, _dae=True), "points": [], "finding_key": None,
+                        "what": [{"what": "rockit raised while sampling a DAE under shooting", "error": r["error"]}]})
+        elif any((not math.isfinite(a)) or abs(a) > 1e-6 for a in r["residual"][:-1]):
+            # (the last point is taken from the control grid's final node)
+            dis.append({"property": "C07", "case": dict(cfg, _dae=True), "points": [], "finding_key": "F34-shooting-dae-z-one-step-late",
+                        "what": [{"what": "shooting with a CasADi integrator: sample(z - x*(1+t)) of the DAE 0 = z - x*(1+t) does not vanish: "
+                                          "the sampled algebraic variable does not belong to the sampled state and time", "residual": r["residual"]}]})
     dist["DM2numpy shapes"] = n2
     return {"evaluations": len(cps) + n2, "distinct_nontrivial": len(nontriv),
             "rule": "random OCPs x 2-4 expressions each (scalar, column, row and matrix shaped; built from states, controls, "
@@ -292,6 +338,9 @@ def run(tier="quick", seed=0, jobs=16):
 
 def replay(path):
     d = json.load(open(path))
+    if d.get("case", {}).get("_dae"):
+        print(json.dumps(dae_shooting_worker(d["case"]), indent=1))
+        return 1
     dis, _, _ = run_cases([(d["case"], d["points"])], "C07r", 1)
     print(json.dumps(dis[:1], indent=1, default=str)[:4000] if dis else "replay: agrees")
     return 1 if dis else 0
